@@ -257,7 +257,7 @@ class ECDH(object):
         """
         return self.load_received_public_key(
             VerifyingKey.from_string(
-                public_key_str, self.curve, valid_encodings
+                public_key_str, self.curve, valid_encodings=valid_encodings
             )
         )
 
